@@ -3,6 +3,8 @@
 
 #include "QXmppIq.h"
 #include "QXmppMessage.h"
+#include "QXmppNonza.h"
+#include <QXmlStreamWriter>
 #include "QXmppPresence.h"
 #include "QXmppSendResult.h"
 #include "QXmppTask.h"
@@ -68,6 +70,11 @@ public:
         const int n = (int)r.range(3, tier == QLatin1String("thorough") ? 60 : 40);
         for (int i = 0; i < n; ++i) {
             quint32 salt = (quint32)r.next();
+            if (r.chance(0.05)) {
+                // an application-level nonza (QXmppClient::sendPacket(const QXmppNonza &)): not a stanza, never counted
+                p.ops.append(mkop(QStringLiteral("nonza"), {}, {}, salt));
+                continue;
+            }
             switch (r.weighted({ 28, 4, 14, 5, 10, 14, 10, 8, 7, 2 })) {
             case 0:
                 p.ops.append(mkop(QStringLiteral("send"), { (qint64)r.uniform(3) }, {}, salt));
@@ -127,7 +134,7 @@ public:
             int lastAckSent = 0;
             QList<std::shared_ptr<TrackedSend>> sends;
             QMap<QString, std::shared_ptr<TrackedSend>> byMarker;
-            int msgNo = 0;
+            int msgNo = 0, nonzaNo = 0;
 
             auto cover = [&](unsigned h) {
                 while (!unacked.isEmpty() && unacked.first().seq <= h) {
@@ -363,6 +370,25 @@ public:
                         if (!expectPending && t->fired == 1 && t->acked) {
                             w.violation(QStringLiteral("acked_without_sm"), QStringLiteral("C09:acknowledged_reported_without_sm"), t->marker);
                         }
+                    }
+                } else if (k == QLatin1String("nonza")) {
+                    if (w.client->isConnected()) {
+                        struct SimNonza : QXmppNonza {
+                            int n = 0;
+                            void parse(const QDomElement &) override { }
+                            void toXml(QXmlStreamWriter *w) const override
+                            {
+                                w->writeStartElement(QStringLiteral("note"));
+                                w->writeDefaultNamespace(QStringLiteral("urn:sim:nonza"));
+                                w->writeAttribute(QStringLiteral("n"), QString::number(n));
+                                w->writeEndElement();
+                            }
+                        } nz;
+                        nz.n = ++nonzaNo;
+                        tr.log(QStringLiteral("app: sendPacket(nonza %1)").arg(nz.n));
+                        w.fault("application_nonza_sent");
+                        w.client->sendPacket(nz);
+                        settle();
                     }
                 } else if (k == QLatin1String("csi")) {
                     if (w.client->isConnected()) {
